@@ -1,5 +1,6 @@
 import Lean.Data.Json
 import Vanguard.Model.Run
+import Vanguard.Spec.Codes
 /-!
   The `e2e` op: parse a scenario (JSON in hex, written by harness/e2e.go), run the model's
   `serve`, and render the observation in exactly the canonical form the harness prints for the
@@ -402,5 +403,131 @@ def runE2E (hexJson : String) : String :=
       match parseScenario j with
       | none => "bad-url"
       | some p => renderObs p (serve fakeWorld p.sc)
+
+end Vanguard.Driver
+
+namespace Vanguard.Driver
+open Vanguard Lean
+
+/-! ### oracles on end-to-end observations (evaluated on the implementation's rendered result) -/
+
+def parseFields (toks : List String) : List (String × String) :=
+  toks.filterMap fun t =>
+    match t.splitOn "=" with
+    | k :: rest => some (k, "=".intercalate rest)
+    | [] => none
+
+def fieldOf (fs : List (String × String)) (k : String) : String :=
+  match fs.find? (fun e => e.1 == k) with
+  | some e => e.2
+  | none => ""
+
+def parseHdrField (v : String) : Hdr :=
+  if v == "-" || v == "" then [] else
+  (v.splitOn ";").filterMap fun kv =>
+    match kv.splitOn "=" with
+    | [k, vs] => match fromHex k with
+      | some kb => some (kb, (vs.splitOn ",").filterMap fromHex)
+      | none => none
+    | _ => none
+
+/-- A well-formed end token `place:code:msg:details` with one of the allowed places. -/
+def endTokenOk (tok : String) (places : List String) : Option Nat :=
+  match tok.splitOn ":" with
+  | [place, code, _, _] => if places.contains place then code.toNat? else none
+  | _ => none
+
+def okBody (cb : String) : Bool :=
+  !(cb.startsWith "MALFORMED" || cb.startsWith "BADFLAGS" || cb.startsWith "MIXED" || cb.startsWith "CONTENT-LENGTH-MISMATCH"
+    || cb.startsWith "BAD-CODE")
+
+/-- What the model says about the request: rejected before validation finished, pass-through /
+    unknown handler (forwarded untouched), or transcoded. -/
+inductive Branch where
+  | rejected | forwarded | transcoded (o : Op)
+
+def branchOf (p : Parsed) : Branch :=
+  match validate fakeWorld p.sc.conf p.sc.req with
+  | .error .notFound => if p.sc.conf.unknownHandler then .forwarded else .rejected
+  | .error _ => .rejected
+  | .ok o => if o.passThrough then .forwarded else .transcoded o
+
+/-- C11: no panic, at most one response head, at most one dispatch. -/
+def oracleC11 (fs : List (String × String)) : Option String :=
+  if fieldOf fs "panic" != "0" then some "ServeHTTP panicked"
+  else if (fieldOf fs "heads").toNat?.getD 99 > 1 then some "more than one response head"
+  else if fieldOf fs "disp" == "MULTIPLE" then some "handler invoked more than once"
+  else none
+
+/-- C18: at most one dispatch; none when the request is rejected during validation; the handler's
+    context is cancelled by the time ServeHTTP returns. -/
+def oracleC18 (p : Parsed) (fs : List (String × String)) : Option String :=
+  let disp := fieldOf fs "disp"
+  if disp == "MULTIPLE" then some "handler invoked more than once" else
+  match branchOf p with
+  | .rejected => if disp != "none" then some "a request that validation rejects was dispatched" else none
+  | _ => if disp != "none" && fieldOf fs "ctx" != "1" then some "handler context not cancelled after return" else none
+
+/-- C03 for a transcoded RPC: the client's response is valid in the client's own protocol and has
+    exactly one terminal disposition in the protocol's place. -/
+def oracleC03 (p : Parsed) (fs : List (String × String)) : Option String :=
+  match branchOf p with
+  | .transcoded o =>
+    let cb := fieldOf fs "cb"
+    let endS := fieldOf fs "end"
+    let cs := (fieldOf fs "cs").toNat?.getD 0
+    let ch := parseHdrField (fieldOf fs "ch")
+    let ct := ch.get (s "Content-Type")
+    if !okBody cb then
+      -- known class: on the re-framing path a response message is forwarded while it is still being
+      -- written; when the backend stops inside a message, a client whose end travels in the body
+      -- (gRPC-Web, Connect streaming) receives the end frame inside the cut message
+      let writes := p.sc.script.foldl (fun acc op => match op with | .write b => acc ++ b | _ => acc) ([] : Bytes)
+      let declaredCL := p.sc.script.foldl (fun (acc : Option Nat) op => match op with
+        | .sethdr k v => if canonKey k == s "Content-Length" then (parseNat v) else acc
+        | _ => acc) none
+      let cut := match o.serverEnveloper with
+        | some _ => (splitFramesFuel (writes.length + 1) writes).isNone
+        | none => match declaredCL with
+          | some n => n != writes.length
+          | none => false
+      let tag := if o.ccodec == o.scodec && (o.cform == .grpcWeb || o.cform == .connectStream) && cut
+        then " [reframe-truncated-response]" else ""
+      some ("malformed client body: " ++ cb ++ tag) else
+    let places := match o.cform with
+      | .grpc => ["hdr", "trailer"]
+      | .grpcWeb => ["hdr", "frame"]
+      | .connectStream => ["frame"]
+      | _ => ["body"]
+    match endTokenOk endS places with
+    | none => some ("no single well-formed terminal disposition in the protocol's place: " ++ endS)
+    | some code =>
+      let isUnary := o.cform == .connectPost || o.cform == .connectGet
+      let wantStatus := if isUnary then Spec.httpOfCode code else 200
+      if cs != wantStatus then some s!"HTTP status {cs} is not what the client's protocol prescribes ({wantStatus})" else
+      let wantCT : Bytes := match o.cform with
+        | .grpc => s "application/grpc+" ++ o.ccodec
+        | .grpcWeb => s "application/grpc-web+" ++ o.ccodec
+        | .connectStream => s "application/connect+" ++ o.ccodec
+        | _ => if code == 0 then s "application/" ++ o.ccodec else s "application/json"
+      if ct != wantCT then some ("content-type is not the client protocol's: " ++ toHex ct) else
+      if endS.startsWith "hdr:" && cb != "-" then some "message data next to a trailers-only end" else none
+  | _ => none
+
+def specE2E (prop : String) (hexJson : String) (res : List String) : String :=
+  match (fromHex hexJson).bind (fun b => (Json.parse (bytesToString b)).toOption) |>.bind parseScenario with
+  | none => "nospec"
+  | some p =>
+    let fs := parseFields res
+    let r : Option (Option String) :=
+      match prop with
+      | "C11" => some (oracleC11 fs)
+      | "C18" => some (oracleC18 p fs)
+      | "C03" => some (oracleC03 p fs)
+      | _ => none
+    match r with
+    | none => "nospec"
+    | some none => "ok"
+    | some (some why) => "fail " ++ why
 
 end Vanguard.Driver
